@@ -138,9 +138,20 @@ S.ext_consts["os.environ"] = ENVIRON
 S.spec_funcs["env_has"] = lambda eng, st, k: VBool(st.map_has(ENVIRON, k.t))
 S.spec_funcs["env_val"] = lambda eng, st, k: st.map_get(ENVIRON, k.t)
 
-c = S.ext("warnings.warn", cite="warnings.warn(message, category=UserWarning): issues a warning. A-warn: warnings are not turned into errors")
-c.param("message", T.Obj).param("category", T.Obj, default=NONE).param("stacklevel", T.Obj, default=NONE)
-c.event("warn", "message").modifies()
+@_impl("warnings.warn", cite="warnings.warn(message, category=UserWarning): issues a warning; raises it instead when the filters turn it into an error (-W error). "
+                            "A-warn: contracts that do not opt into `warn_may_raise` assume the process does not run with warnings as errors")
+def _warn(eng, st, self_v, args, kwargs, node):
+    out = []
+    c_ = getattr(eng, "cur_contract", None)
+    if c_ is not None and getattr(c_, "warn_may_raise", False):
+        s = st.clone()
+        s.emit("warn_raised", [args[0] if args else NONE], eng.site(node))
+        out.append(eng.raise_new(s, "UserWarning"))
+    st.emit("warn", [args[0] if args else kwargs.get("message", NONE)], eng.site(node))
+    out.append(eng.val(st, NONE))
+    return out
+
+
 S.assumption("A-warn", "warnings.warn does not raise (the process does not run with -W error)")
 
 c = S.ext("traceback.print_tb", cite="traceback.print_tb: prints, no other effect")
@@ -288,6 +299,8 @@ def _fut_set_running(eng, st, self_v, args, kwargs, node):
     return out
 
 
+c = S.ext("Future.cancelled", cite="Future.cancelled(): whether the future is cancelled right now (volatile: the owner may cancel a pending future at any time)")
+c.param("self", T.Ref("Future")).returns(T.Bool).event("fut_cancelled", "self", "result").modifies()
 c = S.ext("Future", cite="Future(): a new pending future")
 c.returns(T.Ref("Future"), fresh=True).modifies()
 S.classes["Future"].module = "loky._base"
